@@ -147,11 +147,17 @@ Definition hop_pre (st : hstate) (o : hop) : Prop :=
 
 (** ** The frame *)
 
+Definition order_same (s s' : snap) : Prop := s_l2v s' = s_l2v s /\ s_v2l s' = s_v2l s.
+
+Definition changes_order (o : hop) : bool :=
+  match o with HAddVars _ | HSetVarOrder _ => true | _ => false end.
+
 Definition hframe (st : hstate) (o : hop) (st' : hstate) : Prop :=
   (forall x, hdst o <> Some x ->
      hget (s_handles (h_s C st')) x = hget (s_handles (h_s C st)) x) /\
   (forall r, hroot st r ->
-     ref_ok (h_s C st') r /\ forall a, bfun_of (h_s C st') r a = bfun_of (h_s C st) r a).
+     ref_ok (h_s C st') r /\ forall a, bfun_of (h_s C st') r a = bfun_of (h_s C st) r a) /\
+  (changes_order o = false -> order_same (h_s C st) (h_s C st')).
 
 (** ** What the destination holds afterwards *)
 
@@ -228,7 +234,8 @@ Lemma frame_put : forall st o s' c' d r, HInv st -> hdst o = Some d ->
   extends (h_s C st) s' ->
   hframe st o (mkH (put s' d r) c' (h_reg C st) (h_next C st)).
 Proof.
-  intros st o s' c' d r I Hd X. split; simpl.
+  intros st o s' c' d r I Hd X. split; [|split]; simpl.
+  3: { intros _. split; [apply (ext_l2v _ _ X) | apply (ext_v2l _ _ X)]. }
   - intros x Hx. rewrite Hd in Hx. unfold put. simpl.
     rewrite hget_hset_other by congruence. rewrite (ext_handles _ _ X). reflexivity.
   - intros r0 Hr. pose proof (hroot_ok st r0 I Hr) as Ok. split.
@@ -378,9 +385,10 @@ Proof.
         split; [rewrite E2; exact Hnd|]. intros v r Hin. destruct (E3 v r Hin) as [A Rt].
         split; [exact A | apply (hroot_ok st r I Rt)].
       * intros id p [Heq|Hin]; [inversion Heq; subst; lia|]. pose proof (hi_fresh st I id p Hin). lia.
-    + split; simpl.
+    + split; [|split]; simpl.
       * intros x _. reflexivity.
       * intros r Hr. split; [apply (hroot_ok st r I Hr) | reflexivity].
+      * intros _. split; reflexivity.
     + simpl. exists rp. split; [exact E1|]. split; [rewrite N.eqb_refl; reflexivity|].
       split; [reflexivity|]. split; [|reflexivity].
       intros id Hne. destruct (N.eqb_spec id (h_next C st)); [contradiction | reflexivity].
@@ -412,9 +420,10 @@ Proof.
       * rewrite widen_set_handles. apply qcacheok_widen; [exact H | apply (pairs_range st I) | exact Q].
       * intros id p Hin. rewrite widen_set_handles. apply hpairs_wf_widen. apply (hi_reg st I id p Hin).
       * apply (hi_fresh st I).
-    + split; simpl.
+    + split; [|split]; simpl.
       * intros y Hy. apply hget_hdel_other. congruence.
       * intros r Hr. split; [apply (hroot_ok st r I Hr) | intros a; apply bfun_of_set_handles].
+      * intros _. split; reflexivity.
     + simpl. split; [apply hget_hdel_same | reflexivity].
   - (* HGc *)
     set (s1 := with_roots C st).
@@ -450,12 +459,13 @@ Proof.
         intros v r Hvr. split; [apply (Hp v r Hvr)|].
         apply (Okg r). right. exists id, p, v. auto.
       * apply (hi_fresh st I).
-    + split; simpl.
+    + split; [|split]; simpl.
       * intros x _. reflexivity.
       * intros r Hr. pose proof (Okg r Hr) as Ok. split; [exact Ok|]. intros a.
         rewrite bfun_of_set_handles.
         rewrite <- (bfun_of_extends (gc_model s1) s1 r a (bo_wf _ Bg) Xg Ok).
         unfold s1, with_roots. apply bfun_of_set_handles.
+      * intros _. split; reflexivity.
     + simpl. intros id nd E. change (find_node (gc_model s1) id = Some nd) in E.
       split; [apply (ext_nodes _ _ Xg id nd E)|].
       pose proof (proj1 (co_nodes _ _ Cg id nd) E) as [E1 R1].
@@ -472,15 +482,17 @@ Proof.
       * apply qcacheok_widen; [exact H | apply (pairs_range st I) | exact Q].
       * intros id p Hin. apply hpairs_wf_widen. apply (hi_reg st I id p Hin).
       * apply (hi_fresh st I).
-    + split; simpl.
+    + split; [|split]; simpl.
       * intros x _. reflexivity.
       * intros r Hr. pose proof (hroot_ok st r I Hr) as Ok.
         split; [apply ref_ok_widen; exact Ok | intros a; apply (bfun_of_widen _ _ _ _ _ H Ok)].
+      * discriminate.
     + simpl. auto.
   - (* HSetVarOrder *)
     destruct Pre as [Hnd Hr].
     assert (Hsame : hframe st (HSetVarOrder order) st).
-    { split; [intros; reflexivity|]. intros r Hrr. split; [apply (hroot_ok st r I Hrr) | reflexivity]. }
+    { split; [intros; reflexivity|]. split; [|discriminate].
+      intros r Hrr. split; [apply (hroot_ok st r I Hrr) | reflexivity]. }
     destruct (Nat.leb (length order) 1) eqn:Elen.
     { exists st. split; [reflexivity|]. split; [exact I|]. split; [exact Hsame|]. simpl.
       split; [reflexivity|]. intros a b Hab. apply Nat.leb_le in Elen. lia. }
@@ -529,12 +541,13 @@ Proof.
            unfold s2. rewrite (reorder_nlevels s1 order B1 Hnd Hr1). apply (Hp v r Hvr).
         -- apply (Ok2 r). right. exists id, p, v. auto.
       * apply (hi_fresh st I).
-    + split; simpl.
+    + split; [|split]; simpl.
       * intros x _. reflexivity.
       * intros r Hrr. split; [apply (Ok2 r Hrr)|]. intros a.
         rewrite bfun_of_set_handles. destruct (Hrt r Hrr) as [h [Hin <-]].
         unfold s2. rewrite (reorder_bfun s1 order B1 Hnd Hr1 h a Hin).
         unfold s1, with_roots. apply bfun_of_set_handles.
+      * discriminate.
     + simpl. split.
       * change (nlevels (set_handles s2 (s_handles (h_s C st)))) with (nlevels s2).
         unfold s2. apply (reorder_nlevels s1 order B1 Hnd Hr1).
